@@ -93,6 +93,9 @@ func (h *History) emit(t *rapid.T, op Op) {
 	if h.cfg.ValType == "empty" {
 		op.V = 0
 	}
+	if h.cfg.ValType != "" {
+		churn = make([]byte, 64+len(h.trace.Ops)%512) // allocation churn so that freed memory is reused quickly
+	}
 	h.trace.Ops = append(h.trace.Ops, op)
 	if writeAheadPath != "" {
 		_ = h.trace.Save(writeAheadPath)
@@ -726,6 +729,8 @@ func RunHistory(t *rapid.T, spec *PropSpec) {
 }
 
 var writeAheadPath string
+
+var churn []byte
 
 func init() {
 	if p := os.Getenv("VERIF_WRITEAHEAD"); p != "" {
